@@ -132,6 +132,9 @@ func c12Workload(c *Ctx, fam *report.Family, r *rng.R, nCfg, rounds int) error {
 			names := []string{"zst", "deb", "rpm", "pkg.tar.zst", "apk", "ipk", "archlinux", "nope", "tar.zst"}
 			for i := 0; i < 300; i++ {
 				_, _ = nfpm.Get(names[(i+g)%len(names)])
+				if i%10 == 0 {
+					_ = nfpm.Enumerate()
+				}
 			}
 		}(g)
 	}
@@ -152,6 +155,9 @@ func c12Workload(c *Ctx, fam *report.Family, r *rng.R, nCfg, rounds int) error {
 			}
 		}
 	}
+	// many packagings of ONE format at once (a release tool building every architecture of a package): far more than
+	// there are processors – a bound on concurrency inside a packager must not turn into a wait for itself
+	c12ManyOfOneFormat(c, fam, tree, scripts)
 	// signed packages with different keys and key ids; one large file per package
 	c12Signed(c, fam, tree, 3*rounds)
 	c12LargePayload(c, fam, (rounds+3)/4)
